@@ -5,11 +5,17 @@ import (
 	"testing"
 )
 
+// TestDbg dumps the SSA of the function named by $FN as the checker sees it (debugging aid).
 func TestDbg(t *testing.T) {
+	n := os.Getenv("FN")
+	if n == "" {
+		t.Skip("set FN=<short function name>")
+	}
 	p, err := Load("/repo", "", nil)
 	if err != nil {
 		t.Fatal(err)
 	}
-	fn := p.Fn(os.Getenv("FN"))
-	fn.WriteTo(os.Stdout)
+	if f := p.Fn(n); f != nil {
+		f.WriteTo(os.Stdout)
+	}
 }
